@@ -18,7 +18,8 @@ def _jobs():
     jobs = []
     for dtype in ("float32", "float64"):
         for thr in (False, 1, 2, 3, 5, 8, 16):
-            jobs.append(("allgens", dtype, thr, None))
+            if thr in (False, 1, 2, 3):
+                jobs.append(("allgens", dtype, thr, None))
             jobs.append(("sims0", dtype, thr, None))
         # palette geometries with boundary zones (threads = SIM_THREADS)
         for dim in (2, 3):
@@ -26,8 +27,14 @@ def _jobs():
                 jobs.append(("palette", dtype, simcfg.SIM_THREADS, (dim, gi)))
         for w in (1, 2, 3, 4):
             jobs.append(("c13pen", dtype, 2, w))
-    jobs.append(("numba", "float64", 2, None))
-    jobs.append(("numba", "float32", 2, None))
+    for dtype in ("float32", "float64"):
+        for dim in (2, 3):
+            for kt in ("cosine", "peskin"):
+                jobs.append(("numba", dtype, 2, (dim, kt)))
+        jobs.append(("interaction", dtype, 2, None))
+        jobs.append(("c18geom", dtype, 2, None))
+        for asp in (1.0, 0.75, 1.25):
+            jobs.append(("c02geom", dtype, 2, asp))
     return jobs
 
 
@@ -95,7 +102,40 @@ def _warm_one(args):
         elif kind == "numba":
             from . import ibm
 
-            ibm.warm(real_t)
+            ibm.warm(real_t, dims=(extra[0],), kernel_types=(extra[1],))
+        elif kind == "interaction":
+            # marker counts used by C08 (end to end), C10 and C18 at dx = 1/16
+            from sopht.numeric.immersed_boundary_ops import VirtualBoundaryForcing
+
+            for dim, ns in ((2, (7, 33)), (3, (7, 18, 33))):
+                for n in ns:
+                    for reset in (True, False):
+                        vbf = VirtualBoundaryForcing(1.0, 1.0, dim, real_t(0.0625), n, real_t, enable_eul_grid_forcing_reset=reset,
+                                                     num_threads=False)
+                        g = (24,) * dim
+                        pos = np.full((dim, n), 0.7)
+                        vbf.compute_interaction_forcing(eul_grid_forcing_field=np.zeros((dim, *g), dtype=real_t),
+                                                        eul_grid_velocity_field=np.zeros((dim, *g), dtype=real_t),
+                                                        lag_grid_position_field=pos, lag_grid_velocity_field=np.zeros((dim, n)))
+                        vbf.time_step(0.1)
+        elif kind == "c18geom":
+            from .props import c18
+
+            for dim in (2, 3):
+                for shape in c18.SHAPES[dim]:
+                    kw = dict(grid_size=shape, x_range=c18.DX * shape[-1], kinematic_viscosity=1e-2, real_t=real_t, num_threads=threads,
+                              with_forcing=True, with_free_stream_flow=True, penalty_zone_width=2)
+                    if dim == 2:
+                        sps.UnboundedNavierStokesFlowSimulator2D(**kw)
+                    else:
+                        sps.UnboundedNavierStokesFlowSimulator3D(**kw)
+        elif kind == "c02geom":
+            from .props import c02
+
+            for n in c02.RES[2]:
+                other = max(int(round(n * extra / 2)) * 2, 8)
+                sps.UnboundedNavierStokesFlowSimulator2D(grid_size=(other, n), x_range=1.0, kinematic_viscosity=1e-3, real_t=real_t,
+                                                         num_threads=2, with_free_stream_flow=True, penalty_zone_width=2, cfl=0.25)
     except Exception as e:  # noqa: BLE001 - warming is best effort
         return (args, False, f"{type(e).__name__}: {e}", time.time() - t0)
     return (args, True, "", time.time() - t0)
